@@ -8,6 +8,7 @@ import (
 	"fmt"
 	"hash/fnv"
 	"io"
+	"log/slog"
 	"net"
 	"net/http"
 	"net/http/httptest"
@@ -71,7 +72,7 @@ type Case struct {
 	Steps []Step `json:"steps"`
 }
 
-var kinds = []string{"direct", "host", "catchall", "ignore-add", "ignore-remove", "redirect", "notfound", "nomethod", "options", "lookup", "lookup-tsr", "host-infix-tsr", "double-infix-tsr", "infix", "hijack", "infix-empty-seg", "double-infix-empty-seg", "nomethod-host", "infix-sib", "infix-sib", "infix-sib-miss", "infix-sib-miss", "host-static", "host-static", "redirect-helper", "redirect-helper", "wrapped", "wrapped"}
+var kinds = []string{"direct", "host", "catchall", "ignore-add", "ignore-remove", "redirect", "notfound", "nomethod", "options", "lookup", "lookup-tsr", "host-infix-tsr", "double-infix-tsr", "infix", "hijack", "infix-empty-seg", "double-infix-empty-seg", "nomethod-host", "infix-sib", "infix-sib", "infix-sib-miss", "infix-sib-miss", "host-static", "host-static", "redirect-helper", "redirect-helper", "wrapped", "wrapped", "panic-recovered", "panic-recovered"}
 
 type expKey struct{}
 
@@ -386,6 +387,26 @@ func newHarness() (*harness, error) {
 		}
 		_ = conn.Close()
 	})
+	// a handler that panics below the Recovery middleware; the recovery function looks up another request (to report to that
+	// tenant's sink, say) before it answers: the context it was given is still this request's
+	f.MustHandle("GET", "/pn/{tok}", func(c fox.Context) {
+		e := h.inspect("panicking handler", c, true)
+		if e == nil {
+			return
+		}
+		c.QueryParams().Set("mut", e.tok)
+		panic("c12: handler of token " + e.tok + " fails")
+	}, fox.WithMiddleware(fox.CustomRecoveryWithLogHandler(slog.NewTextHandler(io.Discard, nil), func(c fox.Context, _ any) {
+		e := h.inspect("recovery function", c, false)
+		if e == nil {
+			return
+		}
+		h.nestedLookup(e)
+		h.inspect("recovery function (after a nested Lookup of another request)", c, false)
+		c.SetHeader("X-Resp", e.tok)
+		c.Writer().WriteHeader(e.status)
+		_, _ = c.Writer().Write([]byte(strings.Repeat("b", e.size)))
+	})))
 	// a handler that answers with Context.Redirect: whether that works depends on this request's writer alone
 	f.MustHandle("GET", "/rh/{tok}", func(c fox.Context) {
 		e := h.inspect("redirecting handler", c, true)
@@ -459,6 +480,8 @@ func buildStep(s Step, tok string, n int) (*http.Request, *exp) {
 		path, e.pattern, e.params = "/in/"+tok+"/x/"+tok, "/in/*{tok}/x/{tok2}", []string{"tok", "tok2"}
 	case "wrapped":
 		path, e.pattern, e.params = "/wr/"+tok+"/"+tok, "/wr/{tok}/{tok2}", []string{"tok", "tok2"}
+	case "panic-recovered":
+		path, e.pattern, e.params = "/pn/"+tok, "/pn/{tok}", []string{"tok"}
 	case "redirect-helper":
 		path, e.pattern, e.params, e.status, e.size = "/rh/"+tok, "/rh/{tok}", []string{"tok"}, http.StatusFound, -1
 	case "hijack":
